@@ -110,6 +110,8 @@ class HSFZ:
             return Frame("alive", self.hdr(0, 0x12), trigger, name=name)
         if name == "alive2":
             return Frame("alive", self.hdr(2, 0x12) + bytes([0x00, E]), trigger, name=name)
+        if name == "eof":  # the gateway closes the connection (everything sent before it is still part of the stream)
+            return Frame("eof", b"", trigger, name=name)
         if name.startswith("undefA"):  # a control word that is neither data/ack/alive nor a listed error word, with address pair
             cw = int(name[6:], 16)
             return Frame("undef", self.hdr(2, cw) + bytes([E, T]), trigger, code=cw, name=name)
@@ -225,6 +227,8 @@ class DoIP:
             pair = struct.pack("!HH", O, T) if who == "fdataS" else struct.pack("!HH", T, E) if who == "fdataR" else struct.pack("!HH", E, O)
             body = pair + pl
             return Frame("keep", self.hdr(0x8001, len(body)) + body, trigger, payload=pl, name=name)
+        if name == "eof":
+            return Frame("eof", b"", trigger, name=name)
         if name == "alive":
             return Frame("alive", self.hdr(0x0007, 0), trigger, name=name)
         if name == "unknown":
@@ -302,6 +306,12 @@ class Gateway(Peer):
             self.release(0)
 
     def _emit(self, group: list[Frame]) -> None:
+        if any(f.kind == "eof" for f in group):
+            k = next(i for i, f in enumerate(group) if f.kind == "eof")
+            if group[:k]:
+                self._emit(group[:k])
+            self.send_eof()  # frames listed after the eof are never sent
+            return
         blob = b"".join(f.raw for f in group)
         cuts = seg_cuts(self.seg, group, self.pos)
         self.send(blob, cuts)
@@ -451,6 +461,9 @@ def build(item: dict[str, Any], box: dict[str, Any]) -> Any:
                         off += len(seg)
                         marks.append((off, t))
                 for f in frames:
+                    if f.kind == "eof":
+                        f.t_done = next((t for t, seg in c.delivered if not isinstance(seg, bytes)), None)
+                        continue
                     end = getattr(f, "end", None)
                     if end is None:
                         continue
@@ -571,7 +584,7 @@ def _judge1(item: dict[str, Any], obs: Obs, choices: list[int], res: Result, pid
         for idx, f in enumerate(frames):
             if idx in consumed:
                 continue
-            if f.kind == "err":
+            if f.kind in ("err", "eof"):
                 decisive = idx
                 break
             if kind == "write" and f.kind in ("ack", "nack") and f.mine and proto.echo_matches(bytes.fromhex(arg), f.echo):
@@ -592,7 +605,10 @@ def _judge1(item: dict[str, Any], obs: Obs, choices: list[int], res: Result, pid
             admissible = late
             expect_t = deadline
         else:
-            if f.kind == "err":
+            if f.kind == "eof":
+                good = "connerr"  # (what exactly a lost connection ends an operation with is C08's subject)
+                late = late | {"timeout"}
+            elif f.kind == "err":
                 good = "connerr"
             elif f.kind == "ack":
                 good = "ok"
@@ -600,13 +616,14 @@ def _judge1(item: dict[str, Any], obs: Obs, choices: list[int], res: Result, pid
                 good = "ok" if f.code == 0x06 else "connerr"
             else:
                 good = "ok"
-            admissible = {good} | (late if boundary else set())
+            admissible = {good} | (late if boundary or f.kind == "eof" else set())
             expect_t = max(ts, f.t_done)
         where = f"{kind}#{nwrite if kind == 'write' else len(got_data) + 1}"
         fname = f.name.split(":")[0] if f is not None else "none"
         if outcome not in admissible:
+            gone = any(x.kind == "eof" and x.t_done is not None and x.t_done <= te for x in frames)
             v(
-                f"{kind}|decisive={fname}|{'in-time' if in_time else ('boundary' if boundary else 'late-or-missing')}|got={outcome}",
+                f"{kind}|decisive={fname}|{'in-time' if in_time else ('boundary' if boundary else 'late-or-missing')}|got={outcome}" + ("|gateway-had-closed" if gone and fname != "eof" else ""),
                 f"{where} started t={ts} ended t={te} with {op[4:]}; admissible {sorted(admissible)}; decisive frame {f.name if f else None} delivered at {f.t_done if f else None}, deadline {deadline}",
             )
             return
@@ -630,7 +647,10 @@ def _judge1(item: dict[str, Any], obs: Obs, choices: list[int], res: Result, pid
             if f is not None and f.kind in ("ack", "nack"):
                 consumed.add(decisive)  # type: ignore[arg-type]
         elif outcome == "connerr":
-            if f is not None and f.kind == "err" and (in_time or boundary):
+            if f is not None and f.kind == "eof" and (in_time or boundary):
+                consumed.add(decisive)  # type: ignore[arg-type]
+                closed = True
+            elif f is not None and f.kind == "err" and (in_time or boundary):
                 consumed.add(decisive)  # type: ignore[arg-type]
                 closed = True
                 if in_time and P == "hsfz" and (obs.client_closed_at is None or obs.client_closed_at > te + 1e-9):
